@@ -725,6 +725,12 @@ def fills(ctx):
         return "{%s}%s" % (A, t)
 
     def site(kind):
+        if kind == "background":
+            # a slide's background (p:bgPr): one slide per history
+            bs = prs.slides.add_slide(prs.slide_layouts[6])
+            k_ = len(prs.slides) - 1
+            bs.background.fill.solid()
+            return bs._element.cSld.bg.bgPr, lambda: prs.slides[k_].background.fill, None
         sp = slide.shapes.add_shape(MSO_SHAPE.RECTANGLE, 0, 0, 99, 99)
         sid = sp.shape_id
         again = lambda: [x for x in slide.shapes if x.shape_id == sid][0]  # noqa: E731  (a NEW shape proxy each time)
@@ -763,6 +769,8 @@ def fills(ctx):
 
     def start_xml(kind):
         opts = ["N", "0", "S", "S", "R", "R", "R", "P", "P"] + (["B", "G"] if kind in ("shape", "series") else [])
+        if kind == "background":
+            opts = [o for o in opts if o != "N"]    # p:bgPr REQUIRES a fill
         k = rng.choice(opts)
         if k == "N":
             return None
@@ -848,7 +856,7 @@ def fills(ctx):
     n = 80 if ctx.quick else 1200
     SCRIPTS = [("c:r66051", "bg", "c:r263430"), ("c:r66051", "gr", "c:r263430"), ("c:r66051", "pa", "c:r263430")] * 2
     for hi in range(n):
-        kind = rng.choice(["shape", "shape", "line", "font", "cell", "series"])
+        kind = rng.choice(["shape", "shape", "line", "font", "cell", "series", "background"])
         if hi < len(SCRIPTS):
             kind = "line" if hi < 3 else "font"
         parent, fresh, owner = site(kind)
@@ -941,7 +949,7 @@ def fills(ctx):
     # every part touched is still valid: each fill element sits where the schema has it, with the children it may have
     from harness import xmllab
     from harness.props.c03 import strip_known
-    for part in [slide.part] + [sh.chart.part for sh in slide.shapes if getattr(sh, "has_chart", False)]:
+    for part in [s_.part for s_ in prs.slides] + [sh.chart.part for sh in slide.shapes if getattr(sh, "has_chart", False)]:
         root = etree.fromstring(etree.tostring(part._element))   # a plain lxml tree
         strip_known(root)    # the chart templates' negative axis ids are a listed finding of C03 / C07
         ok, msg = xmllab.validate(root)
